@@ -1646,9 +1646,18 @@ fn process_stream_search_params<T: Read + Write>(
     // todo use parallel iterator
     // todo break after some max time/max amount of messages to improve reaction time
     let mut i = start_idx;
-    let stream_msgs_len = stream.filtered_msgs.len();
+    // without active filters the stream consists of all msgs (and filtered_msgs is not used)
+    let stream_msgs_len = if stream.filters_active {
+        stream.filtered_msgs.len()
+    } else {
+        all_msgs.len()
+    };
     while i < stream_msgs_len {
-        let msg: &adlt::dlt::DltMessage = &all_msgs[stream.filtered_msgs[i]];
+        let msg: &adlt::dlt::DltMessage = &all_msgs[if stream.filters_active {
+            stream.filtered_msgs[i]
+        } else {
+            i
+        }];
         let matches = match_filters(msg, &filters);
 
         if matches {
